@@ -39,10 +39,51 @@ def exact_class(cls, x):
     return isa[cls](x)
 
 
-def resolve(reg, method):
-    """class -> contract that class's instances use for `method`"""
+# base classes each MRO above presupposes; checked against the source on every run (resolve)
+BASES = {'Scheduler': ['PureScheduler', 'AbstractJob'], 'Job': ['AbstractJob'], 'PureScheduler': [],
+         'AbstractJob': [], 'Sequence': [], 'Window': []}
+
+
+class Missing:
+    """placeholder: the source defines the method in class `owner`, and no contract is attached to that definition"""
+    def __init__(self, owner, method):
+        self.qualname = '%s.%s' % (owner, method)
+        self.owner = owner
+        self.generator = False
+
+
+def resolve(reg, method, repo=None):
+    """class -> contract that class's instances use for `method`.
+
+    With the repository at hand the defining class is found the way Python finds it (first class of the MRO
+    whose body binds the name in the *current source*): a definition that shadows the one a contract was
+    written for is then seen (it has no contract: Missing -> UNDECIDED), not silently bypassed."""
     out = {}
+    tab = repo.class_table() if repo is not None else {}
     for cls, mro in MRO.items():
+        if cls in tab and cls in BASES:
+            have = [b for b in tab[cls][0] if b != 'object']
+            if have != BASES[cls]:
+                raise Unsupported('shape: class %s has bases %s in the source, the contracts assume %s'
+                                  % (cls, have, BASES[cls]))
+        owner = None
+        for k in mro:
+            if k in tab and method in tab[k][1]:
+                owner = k
+                break
+        if owner is not None:
+            c = reg.get('%s.%s' % (owner, method))
+            if c is None:
+                # an overriding body without a contract of its own is covered only by an *assumed* (environment)
+                # contract of the method it overrides -- E9: job bodies refine AbstractJob.co_run / co_shutdown.
+                # A verified contract further up is NOT inherited: the definition it was proved for is shadowed.
+                for k in mro[mro.index(owner) + 1:]:
+                    up = reg.get('%s.%s' % (k, method))
+                    if up is not None and getattr(up, 'kind', None) == 'env':
+                        c = up
+                        break
+            out[cls] = c if c is not None else Missing(owner, method)
+            continue
         for k in mro:
             c = reg.get('%s.%s' % (k, method))
             if c is not None:
@@ -135,7 +176,7 @@ def dispatch(ex, recv, method, e, kwargs, st, awaited, yield_from):
         # modularity: the caller is verified against the abstract contract of the method (e.g. the body
         # contract of a job), whatever the class of the receiver; overriding methods must refine it
         return call_with_args(ex, ex.reg.get(over), recv, e.args, kwargs, st, awaited, e, yield_from=yield_from)
-    table = resolve(ex.reg, method)
+    table = resolve(ex.reg, method, getattr(ex, 'repo', None))
     if not table:
         raise Unsupported('no contract for method %s (line %d)' % (method, e.lineno))
     if isinstance(e.func.value, ast.Name) and e.func.value.id == 'self' and ex.info.cls in MRO:
@@ -144,6 +185,10 @@ def dispatch(ex, recv, method, e, kwargs, st, awaited, yield_from):
     groups = {}
     for cls, c in table.items():
         groups.setdefault(c.qualname, (c, []))[1].append(cls)
+    for qn, (c, classes) in groups.items():
+        if isinstance(c, Missing):
+            raise Unsupported('method %s as defined in class %s (used by instances of %s) has no contract (line %d)'
+                              % (method, c.owner, '/'.join(classes), e.lineno))
     if len(groups) == 1:
         c = next(iter(groups.values()))[0]
         return call_with_args(ex, c, recv, e.args, kwargs, st, awaited, e, yield_from=yield_from)
